@@ -69,6 +69,9 @@ CHECKS = {
  "C20": ("exploration", "panic monitors (recover + worker-process death) over wire-level mutants of every registered message type decoded by the node's tx decoder, precompile call-data fuzzing through the real EVM, parser fuzzing; CheckTx verdicts vs an independent statement of the minimum-fee rule on apps with different exemption settings",
          "Held on the inputs explored (apart from the listed known finding in a dependency): every message type of the interface registry is generated reflectively, mutated at wire level (field omission at two levels, duplication, truncation, bit flips), decoded as the node does and given to ValidateBasic, signer resolution and the real CheckTx; every precompile method is called with well-formed, truncated, random and hostile-offset call data as transaction and eth_call; address/target parsers on random and near-valid strings; signed transactions around gas = n*allowance and fee = ceil(price*gas) on apps with six exemption lists, four allowances and four node prices.",
          "A panic recovered by baseapp still counts. A worker process that dies is reported as a violation (CrashIsViolation).", "4 C20"),
+ "C17": ("exploration", "replay of recorded workload histories in separate processes under different GOMAXPROCS / GOGC / TZ / LANG settings; per-operation and per-block digest traces (application hash, results, events) compared line by line, divergences pinpointed to the component",
+         "No divergence in R replays (quick 3, thorough 6) of the corpus apart from the listed known finding: complete cases of eleven other workloads (votes, pool, aging end blocks, conversions, precompile call trees, staking precompile, oracle life cycles, migration, gov, tolerated failures, IBC) and oracle-churn histories dropping several bonded oracles per governance update.",
+         "Order dependence on a k-element map shows up with probability 1-1/k! per extra replica; a run under the race detector is not part of the registered commands (see DESIGN.md).", "4 C17"),
 }
 NOT_YET = {}
 def load_props():
